@@ -1038,7 +1038,12 @@ impl<'a> Gen<'a> {
                     Some(ch) if self.r.chance(6, 7) => ch,
                     _ => self.pick_chan(),
                 };
-                let line = if self.r.chance(1, 6) { format!("TOPIC {} :", ch) } else { format!("TOPIC {} :{}", ch, self.text()) };
+                let line = match self.r.below(12) {
+                    0 | 1 => format!("TOPIC {} :", ch),
+                    // a topic of blanks only is a topic (not the empty topic that clears it)
+                    2 => format!("TOPIC {} :{}", ch, ["   ", " ", "\t"][self.r.below(3)]),
+                    _ => format!("TOPIC {} :{}", ch, self.text()),
+                };
                 self.say(c, &line)
             }
             K::TopicQuery => {
